@@ -6,5 +6,7 @@ mkdir -p work evidence
 export CARGO_NET_OFFLINE=true
 [ -f harness/Cargo.lock ] || cp /repo/Cargo.lock harness/Cargo.lock
 (cd harness && cargo build --offline 2>&1 | tail -3 && cargo build --offline --release 2>&1 | tail -3)
-(cd lean && lake build 2>&1 | tail -5)
+# driver + every property module present (so that the per-check lake build is a no-op)
+MODS=$(cd lean && ls MilaModel/Props/*.lean 2>/dev/null | sed 's/\.lean$//; s#/#.#g')
+(cd lean && lake build mila_model $MODS 2>&1 | tail -5)
 echo "setup done"
